@@ -18,6 +18,9 @@ not enumerated -- these are the conditions under which enumeration is unnecessar
      between our write and our reload);
  (R) race-tolerant file operations: makedirs(exist_ok=True); remove inside a try
      that tolerates a vanished file (not exists()-then-remove()).
+
+Round 4: (R10-no-waiting-on-other-writers) no lock file / OS lock / wait loop in the cache
+update; (R10-removes-only-its-own) only its own temporary and the published module's bytecode are removed.
 """
 import ast
 
